@@ -39,6 +39,18 @@ class ExecutionContext:
 
         return result
 
+    def __CastScalar(self, scalarType: LinearIR.Type, var):
+        if isinstance(scalarType, LinearIR.IntegerType):
+            if not scalarType.Unsigned:
+                return math.floor(var)
+            else:
+                return abs(math.floor(var))
+        else:
+            # Must be float
+            assert isinstance(scalarType, LinearIR.FloatType)
+
+            return float(var)
+
     def __CreateInstance(self, varType: LinearIR.Type):
         if varType.IsPrimitive():
             return self.__CreatePrimitiveInstance(varType)
@@ -304,18 +316,15 @@ class ExecutionContext:
                     ref = instruction.Reference
                     var = localScope[instruction.Value.Reference]
 
-                    assert instruction.Type.IsScalar()
-
-                    if isinstance(instruction.Type, LinearIR.IntegerType):
-                        if not instruction.Type.Unsigned:
-                            var = math.floor(var)
-                        else:
-                            var = abs(math.floor(var))
+                    if instruction.Type.IsVector():
+                        # Vectors are converted component by component
+                        var = [
+                            self.__CastScalar(instruction.Type.ElementType, v)
+                            for v in var
+                        ]
                     else:
-                        # Must be float
-                        assert isinstance(instruction.Type, LinearIR.FloatType)
-
-                        var = float(var)
+                        assert instruction.Type.IsScalar()
+                        var = self.__CastScalar(instruction.Type, var)
 
                     localScope[ref] = var
                 case LinearIR.OpCode.CONSTRUCT_PRIMITIVE:
